@@ -399,6 +399,9 @@ func regStd() {
 	regEnv("(*net/http.Request).FormValue", "r.FormValue(k): pure function of (r,k)", func(ex *Executor, st *State, c *callCtx) []callResult {
 		return one(st, App("form_value", SStr, reqBase(ex, st, c.Args[0]), ex.asTerm(st, c.Args[1])))
 	})
+	regEnv("(*net/url.URL).String", "u.String(): the full URL text, including the query string", func(ex *Executor, st *State, c *callCtx) []callResult {
+		return one(st, App("url_string", SStr, ex.asTerm(st, c.Args[0])))
+	})
 	regEnv("(*net/url.URL).Query", "u.Query(): pure function of u", func(ex *Executor, st *State, c *callCtx) []callResult {
 		return one(st, App("url_query", SInt, ex.asTerm(st, c.Args[0])))
 	})
